@@ -65,6 +65,14 @@ func init() {
 	l("strings.TrimSpace", inTrimSpace)
 	l("strings.Join", inStringsJoin)
 	l("strings.Split", inStringsSplit)
+	l("strings.Index", func(fr *frame, a []value) value {
+		s, ok1 := a[0].(string)
+		sub, ok2 := a[1].(string)
+		if !ok1 || !ok2 {
+			panic(outOfReach{"strings.Index on symbolic text"})
+		}
+		return strings.Index(s, sub)
+	})
 	l("strings.Compare", func(fr *frame, a []value) value { return intVal(bytesCmpTerm(strBytes(a[0]), strBytes(a[1]))) })
 	l("strconv.ParseInt", inParseInt)
 	l("strconv.ParseFloat", inParseFloat)
@@ -946,10 +954,37 @@ func inJSONUnmarshal(fr *frame, a []value) value {
 		panic(outOfReach{"json.Unmarshal into unsupported target"})
 	}
 	elem := mustDeref(target.t)
-	if _, isIface := elem.Underlying().(*types.Interface); !isIface {
-		panic(outOfReach{"json.Unmarshal into non-interface target " + elem.String()})
-	}
 	var x interface{}
+	if mt, isMap := elem.Underlying().(*types.Map); isMap {
+		// map[string]any target (kvql.JSON): object members are merged into the existing map
+		if basicKind(mt.Key()) != types.String {
+			panic(outOfReach{"json.Unmarshal into map with non-string keys"})
+		}
+		var obj map[string]interface{}
+		if err := json.Unmarshal(concreteBytes(data), &obj); err != nil {
+			return mkError(err.Error())
+		}
+		if obj == nil { // JSON null leaves the map unchanged
+			return iface{}
+		}
+		m, _ := (*ptr).(*omap)
+		if m == nil {
+			m = makeMap(mt.Key()).(*omap)
+			*ptr = m
+		}
+		keys := make([]string, 0, len(obj))
+		for k := range obj {
+			keys = append(keys, k)
+		}
+		sort.Strings(keys)
+		for _, k := range keys {
+			m.insert(k, fromNativeJSON(obj[k]))
+		}
+		return iface{}
+	}
+	if _, isIface := elem.Underlying().(*types.Interface); !isIface {
+		panic(outOfReach{"json.Unmarshal into unsupported target " + elem.String()})
+	}
 	if err := json.Unmarshal(concreteBytes(data), &x); err != nil {
 		return mkError(err.Error())
 	}
